@@ -65,6 +65,8 @@ fn streams(name: String, params: Value) -> Scenario {
                     e.push(Ev::Deliver(inbound(0, false, 0, &[*id], &format!("m{}", t))));
                 }
                 e.push(Ev::Deliver(inbound(1, false, 21, &ids, &format!("b{}", t))));
+                // the broker repeats a QoS 1 message (DUP = 1, same identifier): one more item
+                e.push(Ev::Deliver(inbound(1, true, 21, &[ids[0]], &format!("d{}", t))));
                 e.push(Ev::DropCtx);
             }
             if s.m.subs[1].stream.is_none() && s.m.subs[1].receiver_alive {
